@@ -358,13 +358,18 @@ class Spec(PropSpec):
             "host programs execute try_write / poll-once write, read, peek (buffer sizes 0, 1, k, 64), shutdown, "
             "into_split / reunite and drops of either half on both ends; on remote pairs the link is held and the controller "
             "matures chosen wire positions through Sim::links in a scripted order (all permutations of <= 4 segments in quick, "
-            "<= 6 in thorough), with partitions mid-stream; a case is non-trivial when bytes were written and read; "
+            "<= 6 in thorough), with partitions mid-stream; deterministic families: request/response, half-close (shutdown then "
+            "drop), FIN parked at a full channel, a write_all task blocked on a full window and then reset, writes > 64 KiB "
+            "through write_all and try_write loops (compared by length + digest); a case is non-trivial when bytes were "
+            "written and read; "
             "distinct = distinct (mode, capacity, script)")
     assumptions = [
         "tokio mpsc / oneshot / Notify are replaced in the model by a bounded FIFO and flags (modelled, not verified)",
         "delivery order and loss are inputs of the model (Mature / Partition events); the theorems quantify over all of them",
         "u64 sequence wrap-around and usize credit overflow are not modelled",
         "the model starts at the established state; the handshake is property C12's model (TV.Conn)",
+        "the exact credit equality (writer-side liveness on a healthy link) is not proved; which parked task tokio wakes is "
+        "not modelled: c02_reset_unblocks covers the state the woken writer finds",
     ]
 
     def gen_cases(self, ctx):
